@@ -17,6 +17,8 @@ pub const PRELUDE: &[&str] = &[
     "CREATE TABLE e (id INT, v INT)",
     "CREATE UNIQUE INDEX ue ON e (v)",
     "CREATE TABLE s (id INT NOT NULL, v INT, w INT NOT NULL)",
+    // two UNIQUE constraints on one table (per-constraint bookkeeping must not be mixed up)
+    "CREATE TABLE d3 (id INT PRIMARY KEY, u1 INT UNIQUE, u2 INT UNIQUE)",
 ];
 
 /// Declared constraints (what the DDL above states), independent of the catalog's bookkeeping.
@@ -36,6 +38,9 @@ pub const DECLS: &[Decl] = &[
     Decl::NonNeg { table: "D", col: 2, name: "CHECK d(w>=0)" },
     Decl::Key { table: "D2", cols: &[0, 1], pk: true, name: "PK d2(a,b)" },
     Decl::Key { table: "E", cols: &[1], pk: false, name: "UNIQUE INDEX e(v)" },
+    Decl::Key { table: "D3", cols: &[0], pk: true, name: "PK d3(id)" },
+    Decl::Key { table: "D3", cols: &[1], pk: false, name: "UNIQUE d3(u1)" },
+    Decl::Key { table: "D3", cols: &[2], pk: false, name: "UNIQUE d3(u2)" },
     Decl::NotNull { table: "S", col: 0, name: "NOT NULL s(id)" },
     Decl::NotNull { table: "S", col: 2, name: "NOT NULL s(w)" },
 ];
@@ -190,6 +195,14 @@ pub fn alphabet(tier_thorough: bool) -> Vec<String> {
     a.push("UPDATE d2 SET a = 1".into());
     a.push("UPDATE d2 SET a = b, b = a".into());
     a.push("DELETE FROM d2 WHERE b = 1".into());
+    // --- two UNIQUE columns: a NULL in one of them next to a duplicate in the other, within a batch and across statements
+    a.push("INSERT INTO d3 VALUES (1, NULL, 5), (2, NULL, 5)".into());
+    a.push("INSERT INTO d3 VALUES (1, 5, NULL), (2, 5, NULL)".into());
+    a.push("INSERT INTO d3 VALUES (1, 1, 5)".into());
+    a.push("INSERT INTO d3 VALUES (2, NULL, 5)".into());
+    a.push("INSERT INTO d3 VALUES (3, 1, NULL)".into());
+    a.push("UPDATE d3 SET u2 = 5".into());
+    a.push("UPDATE d3 SET u1 = NULL".into());
     // --- unique index on e(v): same NULL / value transitions
     a.push("INSERT INTO e VALUES (1, 10)".into());
     a.push("INSERT INTO e VALUES (2, 10)".into());
@@ -258,6 +271,8 @@ pub fn core_alphabet(tier_thorough: bool) -> Vec<String> {
         "INSERT INTO d2 VALUES (1, 2), (1, 1)",
         "INSERT INTO d2 VALUES (1, NULL)",
         "UPDATE d2 SET b = 1",
+        "INSERT INTO d3 VALUES (1, NULL, 5), (2, NULL, 5)",
+        "INSERT INTO d3 VALUES (2, NULL, 5)",
         "INSERT INTO e VALUES (1, 10)",
         "INSERT INTO e VALUES (2, 10)",
         "INSERT INTO e VALUES (2, NULL)",
@@ -304,13 +319,13 @@ impl Spec for C10Spec {
             // attribute to the statement that took a consistent state to an inconsistent one
             // feature of the failing input: was the target table's append-mode shortcut armed
             // in the pre-state (a function of the history, not of the wrong output)
-            let target = op.split_whitespace().find(|w| ["d", "d2", "e", "s"].contains(&w.to_lowercase().as_str())).unwrap_or("d");
+            let target = op.split_whitespace().find(|w| ["d", "d2", "d3", "e", "s"].contains(&w.to_lowercase().as_str())).unwrap_or("d");
             let armed = _pre.get_table(&target.to_uppercase()).map(|t| t.is_in_append_mode()).unwrap_or(false);
             let path = if !op.starts_with("INSERT") { "-" } else if armed { "append_mode_armed" } else { "plain" };
             rep.violation(
                 &[("constraint", bad[0].clone()), ("stmt", op.to_string()), ("outcome", out.class().to_string()), ("path", path.to_string())],
                 format!("after `{}` ({}) constraint(s) {:?} no longer hold", op, out.brief(), bad),
-                json!({"prelude": PRELUDE, "steps": hist, "probes": ["SELECT * FROM d", "SELECT * FROM d2", "SELECT * FROM e", "SELECT * FROM s"]}),
+                json!({"prelude": PRELUDE, "steps": hist, "probes": ["SELECT * FROM d", "SELECT * FROM d2", "SELECT * FROM d3", "SELECT * FROM e", "SELECT * FROM s"]}),
             );
             return None; // do not explore from an already inconsistent state
         }
